@@ -438,6 +438,45 @@ static void modifycvcs_case(Result &r, bool same_step, long nsteps)
   delete px;
 }
 
+// Gradients reported for a variable whose group is fitted (on itself, or on a separate fitting group): the forces the engine
+// receives must be the applied force times the reported per-atom gradients, on every atom.
+static void fitted_gradients_case(Result &r, bool same_step, long nsteps, bool separate_fitting_group)
+{
+  Scn sc; sc.id = "F"; sc.natoms = 6;
+  vproxy *px = new_px(sc, same_step);
+  std::string conf = std::string("colvar {\n name s\n distance {\n group1 {\n atomNumbers 1 2 3\n centerToReference on\n rotateToReference on\n") +
+                     (separate_fitting_group ? " fittingGroup {\n atomNumbers 4 5 6\n }\n refPositions (0.0, 0.0, 0.0) (1.4, 0.1, 0.0) (0.2, 1.3, 0.4)\n"
+                                             : " refPositions (0.0, 0.0, 0.0) (1.4, 0.1, 0.0) (0.2, 1.3, 0.4)\n") +
+                     " }\n group2 {\n dummyAtom (0.5, -0.7, 1.1)\n }\n }\n}\nharmonic {\n name h\n colvars s\n centers 0.5\n forceConstant 2.0\n}\n";
+  if (px->config(conf) != 0) { fprintf(stderr, "library refused the fitted-gradients scenario: %s\n", px->errtxt.c_str()); _exit(3); }
+  if (cvs(*px, W({"cv", "colvar", "s", "set", "collect_gradient", "1"})).rc != 0) { fprintf(stderr, "HARNESS-ERROR: collect_gradient\n"); _exit(2); }
+  for (long s = 0; s < nsteps; s++) {
+    place(*px, s);
+    if (px->step(s) != 0) { r.violation("C20:agree:fitted-group-gradients:step-fails", "{\"part\":2,\"scenario\":\"F\"}"); break; }
+    r.count("transitions");
+    r.count("evaluations"); r.count("p2_comparisons");
+    r.seen("nontrivial", "p2:F:" + std::to_string(same_step) + std::to_string(separate_fitting_group) + ":" + std::to_string(s));
+    SR ids = cvs(*px, W({"cv", "colvar", "s", "getatomids"})), gr = cvs(*px, W({"cv", "colvar", "s", "getgradients"})), fa = cvs(*px, W({"cv", "colvar", "s", "getappliedforce"}));
+    std::vector<double> vi, vg, vf;
+    if (ids.rc || gr.rc || fa.rc || !parse_nums(ids.out, vi) || !parse_nums(gr.out, vg) || !parse_nums(fa.out, vf) || vg.size() != 3 * vi.size() || vf.size() != 1) {
+      r.violation("C20:agree:fitted-group-gradients:shape", "{\"part\":2,\"scenario\":\"F\",\"ids\":\"" + jesc(ids.out) + "\",\"gradients\":\"" + jesc(gr.out.substr(0, 200)) + "\"}");
+      break;
+    }
+    std::vector<cvm::rvector> want(6, cvm::rvector(0, 0, 0));
+    for (size_t k = 0; k < vi.size(); k++) { int a = (int) vi[k]; if (a >= 0 && a < 6) want[a] = vf[0] * cvm::rvector(vg[3 * k], vg[3 * k + 1], vg[3 * k + 2]); }
+    bool bad = false;
+    double worst = 0;
+    for (int a = 0; a < 6; a++) { double dv = (px->fapp[a] - want[a]).norm(); worst = std::max(worst, dv); if (dv > 1e-10 * std::max(1.0, px->fapp[a].norm())) bad = true; }
+    if (bad) {
+      r.violation(std::string("C20:agree:fitted-group-gradients:engine-forces-are-not-applied-force-times-reported-gradients:") + (separate_fitting_group ? "separate-fitting-group" : "group-fitted-on-itself"),
+                  "{\"part\":2,\"scenario\":\"F\",\"total_forces_same_step\":" + std::string(same_step ? "true" : "false") + ",\"after_engine_step\":" + std::to_string(s) +
+                  ",\"applied_force\":" + num(vf[0]) + ",\"largest_difference\":" + num(worst) + ",\"gradients\":\"" + jesc(gr.out.substr(0, 300)) + "\"}");
+      break;
+    }
+  }
+  delete px;
+}
+
 void part2(std::vector<Scn> const &scs, Args const &args, Result &total)
 {
   // (scenario, timing convention, variant): variant 0 plain run, 1 resumed from the donor state, 2 step counter beyond 2^31
@@ -447,6 +486,8 @@ void part2(std::vector<Scn> const &scs, Args const &args, Result &total)
   jobs.push_back({-1, true, 0});   // two-component variable with cvcflags (own scenario D)
   jobs.push_back({-2, false, 0});  // modifycvcs against the same coefficient in the configuration (own scenario E)
   jobs.push_back({-2, true, 0});
+  jobs.push_back({-3, true, 0});   // gradients of a group fitted on itself (own scenario F)
+  jobs.push_back({-4, true, 0});   // ... and with a separate fitting group
   jobs.push_back({-1, false, 0});
   long nsteps = args.thorough() ? 8 : 5;
   std::string scratch = args.kv.count("scratch") ? args.kv.at("scratch") : ".";
@@ -458,6 +499,7 @@ void part2(std::vector<Scn> const &scs, Args const &args, Result &total)
       run_cases_forked(j, j + 1, [&](size_t ji, Result &rr) {
         Job const &jb = jobs[ji];
         if (jb.si == -2) { modifycvcs_case(rr, jb.same, std::max<long>(nsteps, 6)); return; }
+        if (jb.si == -3 || jb.si == -4) { fitted_gradients_case(rr, jb.same, std::max<long>(nsteps, 4), jb.si == -4); return; }
         if (jb.si < 0) { components_case(rr, jb.same, std::max<long>(nsteps, 6)); return; }
         Scn const &sc = scs[jb.si];
         vproxy *px = new_px(sc, jb.same);
@@ -488,7 +530,7 @@ void part2(std::vector<Scn> const &scs, Args const &args, Result &total)
         }
         delete px;
       }, [&](size_t ji, std::string const &kind, std::string const &tail) {
-        r.violation("C20:crash:query-battery:" + kind, "{\"part\":2,\"scenario\":\"" + (jobs[ji].si == -2 ? std::string("E") : (jobs[ji].si < 0 ? std::string("D") : scs[jobs[ji].si].id)) + "\",\"death\":\"" + jesc(kind) + "\",\"report\":\"" + jesc(tail) + "\"}");
+        r.violation("C20:crash:query-battery:" + kind, "{\"part\":2,\"scenario\":\"" + (jobs[ji].si <= -3 ? std::string("F") : jobs[ji].si == -2 ? std::string("E") : (jobs[ji].si < 0 ? std::string("D") : scs[jobs[ji].si].id)) + "\",\"death\":\"" + jesc(kind) + "\",\"report\":\"" + jesc(tail) + "\"}");
       }, r);
     }
   }, total, 1800);
